@@ -152,6 +152,19 @@ def _random_state(rng, ctx, cplx, qntot=None, max_bond=4, spec=None):
     return None
 
 
+def _walk(case, op, cls, ttns, bases):
+    """independent dense contraction of the node tensors; a result whose node tensors do not even
+    fit together (shape mismatch) is a malformed object produced by the library -> violation"""
+    try:
+        return L.dense_of_ttns(ttns, bases)
+    except Exception as e:  # noqa
+        case.n_checks += 1
+        case.run.count("check:" + op)
+        case.violation(f"{op}:{cls}:malformed-node-tensors", exception=type(e).__name__, message=str(e)[:200],
+                       shapes=[list(nd.tensor.shape) for nd in ttns.node_list])
+        return None
+
+
 def _order(rng, ctx):
     o = [ctx["phys"][i] for i in rng.permutation(len(ctx["phys"]))]
     return o
@@ -170,7 +183,9 @@ def _dense_checks(case, op, ctx, ttns, psi_ref, rng, tol):
     good = True
     if ok:
         good = case.close(op, _cls(ctx), got, ref, tol, order=order)
-    walker = L.dense_of_ttns(ttns, [ctx["bl"][b] for b in order])
+    walker = _walk(case, op, _cls(ctx), ttns, [ctx["bl"][b] for b in order])
+    if walker is None:
+        return False
     if good and ok:
         # the library's own todense disagrees with the raw tensors it holds
         case.close("todense", _cls(ctx) + ":vs-raw-tensors", got, walker, TOL_RING, after=op, order=order)
@@ -284,8 +299,9 @@ def _case_tree(run, rng, quick, case_seed, icase):
         if ok and n_nodes == 1:
             # own signature: on a one-node tree the root is the only node and both operands are
             # written to the same slice
-            got = L.dense_of_ttns(bsum, [bl[b] for b in ctx["phys"]])
-            case.close("add", "single-node-tree", got, psi + B["psi"], TOL_RING)
+            got = _walk(case, "add", "single-node-tree", bsum, [bl[b] for b in ctx["phys"]])
+            if got is not None:
+                case.close("add", "single-node-tree", got, psi + B["psi"], TOL_RING)
             run.count("add:single-node-tree")
         elif ok:
             _dense_checks(case, "add", ctx, bsum, psi + B["psi"], rng, TOL_RING)
@@ -770,7 +786,9 @@ def _case_library_states(run, rng, quick, case_seed, icase):
     except Exception as e:  # noqa
         run.count(f"rejected:TTNS.random:{type(e).__name__}")
         return case
-    psi = L.dense_of_ttns(r, [bl[b] for b in ctx["phys"]])
+    psi = _walk(case, "random", cls, r, [bl[b] for b in ctx["phys"]])
+    if psi is None:
+        return case
     if not np.all(np.isfinite(psi)):
         run.count("rejected:TTNS.random:nan")
         return case
@@ -864,7 +882,9 @@ def _case_from_mps(run, rng, quick, case_seed, icase):
     ok, got = case.call("from_mps", cls + ":todense-raises", lambda: ttns.todense(list(bl)))
     if ok:
         case.close("from_mps", cls, np.asarray(got).reshape(-1), psi_ref, TOL_FACT)
-    walker = L.dense_of_ttns(ttns, list(bl))
+    walker = _walk(case, "from_mps", cls, ttns, list(bl))
+    if walker is None:
+        return case
     case.close("from_mps", cls + ":raw-tensors", walker.reshape(-1), psi_ref, TOL_FACT)
     case.close("from_mps", cls + ":qntot", np.array(ttns.qntot), qntot, 0.5)
     _ = psi, dims
@@ -882,7 +902,9 @@ def _case_from_mps(run, rng, quick, case_seed, icase):
     if n > 1:
         ok, c = case.call("from_mps+compress", cls, lambda: ttns.copy().compress(temp_m_trunc=1000))
         if ok:
-            case.close("from_mps+compress", cls, L.dense_of_ttns(c, list(bl)).reshape(-1), psi_ref, TOL_FACT)
+            w2 = _walk(case, "from_mps+compress", cls, c, list(bl))
+            if w2 is not None:
+                case.close("from_mps+compress", cls, w2.reshape(-1), psi_ref, TOL_FACT)
     return case
 
 
@@ -921,8 +943,9 @@ def _case_history(run, rng, quick, case_seed, icase):
                 bt = L.build_ttns(tree, spec, B["tensors"], B["qns"])
                 ok, r = case.call("add", "single-node-tree", lambda: cur.add(bt))
                 if ok:
-                    case.close("add", "single-node-tree", L.dense_of_ttns(r, [bl[b] for b in ctx["phys"]]),
-                               psi + B["psi"], TOL_RING * max(1.0, np.abs(psi).max()))
+                    w2 = _walk(case, "add", "single-node-tree", r, [bl[b] for b in ctx["phys"]])
+                    if w2 is not None:
+                        case.close("add", "single-node-tree", w2, psi + B["psi"], TOL_RING * max(1.0, np.abs(psi).max()))
                 continue
             hist.append(dict(op="add", tensors=B["tensors"], qns=B["qns"]))
             bt = L.build_ttns(tree, spec, B["tensors"], B["qns"])
